@@ -314,7 +314,8 @@ def traffic_log_round_trip(ctx, repo, rule):
     newlines included), zeros, text that looks like tags and list punctuation."""
     from ..absint import ClassRef, Interp, Obj, PyRaise, Undecided
     H = "GeckoStatusBlockProtocolHandler"
-    cases = (("all-byte-values", bytes(range(256)) * 4), ("zeros", bytes(1024)), ("tag-like-text", (b"</DATAS>'\\x27 STATV [0x1, '0x2']\n" * 40)[:1024]))
+    cases = (("all-byte-values", bytes(range(256)) * 4), ("zeros", bytes(1024)), ("tag-like-text", (b"</DATAS>'\\x27 STATV [0x1, '0x2']\n" * 40)[:1024]),
+             ("backslash-then-apostrophe", (b"\\'ab\\\\'c" * 120)[:1024]), ("both-quotes-and-backslashes", (b"\"\\'x'\\\\\"" * 130)[:1024]))
     n = 0
     for key, block in cases:
         it = Interp(repo, max_depth=14)
@@ -344,7 +345,7 @@ def traffic_log_round_trip(ctx, repo, rule):
                f"a traffic log of {len(lines)} STATV datagrams carrying a {len(block)}-byte block ({key}) read by GeckoSnapshot.parse gives "
                f"{(str(len(got)) + ' bytes, first difference at ' + str(first)) if isinstance(got, (bytes, bytearray)) else got!r}: the raw traffic log does not reassemble to the transferred block",
                repo.method("GeckoSnapshot", "parse").loc, sample={"rule": rule, "case": key, "datagrams": len(lines)})
-    ctx.floor(rule, "traffic logs interpreted", n, 3)
+    ctx.floor(rule, "traffic logs interpreted", n, 5)
 
 
 def reader_table(repo):
